@@ -92,7 +92,10 @@ CaseP(fam, adds, fdes0, le, vendor, pc) ==
         probes == [k \in DOMAIN fdes |-> SortedSeq(ProbeOffs(fdes[k]))]
     IN [fam |-> fam, asz |-> adds[1].asz, le |-> le, vendor |-> vendor, adds |-> adds, fdes |-> fdes0, probes |-> probes,
         ids |-> bld.ids, ncies |-> Len(bld.set),
-        wf |-> WellFormed(bld.set, fdes),
+        wf |-> WellFormed(bld.set, fdes)
+               /\ \A k \in DOMAIN fdes :           \* ranges that wrap around the address space have no meaning
+                     LET a == MaskA(fdes[k].addr, bld.set[fdes[k].cie].asz) IN
+                     ~ULt8(MaskA(Add8(a, N8(fdes[k].len)), bld.set[fdes[k].cie].asz), a),
         pre |-> [debug |-> PreBytes("debug", pc, le), eh |-> PreBytes("eh", pc, le)],
         exp |-> [debug |-> WriteExp("debug", bld.set, fdes, le, probes, pc),
                  eh    |-> WriteExp("eh", bld.set, fdes, le, probes, pc)]]
@@ -175,6 +178,40 @@ Sames(k) == [j \in 1..k |-> InsR("same_value", 20 + j)]
 Restores(k) == [j \in 1..k |-> <<0, InsR("restore", 16)>>]
 MixCie(fmt, ver, asz, kc) == [MkBCie(fmt, ver, asz, 1, -4, 16) EXCEPT !.ins = <<InsRO("cfa", 7, 8)>> \o Sames(kc)]
 MixFde(k, call, kf) == MkBFde(call, N8(4096 * k), 64, Restores(kf) \o << <<4, InsO("cfa_offset", 16 * k)>> >>)
+(* "eptr" states (same run): the .eh_frame pointer-format dimension.  Every format that  *)
+(* write_eh_pointer accepts x application {absptr, pcrel} x slot {personality, FDE         *)
+(* address, LSDA} x address size x values at the format's signed and unsigned boundaries   *)
+(* (negative ones through pcrel targets below the pointer's position, or as wrapped        *)
+(* absolute addresses).  Representable => written and read back equal; otherwise          *)
+(* ValueTooLarge, never a different value (PtrRoundTrip is checked by TLC as well).        *)
+EpFormats == {0, 1, 2, 3, 4, 9, 10, 11, 12}
+Pw(k) == Conc8(Shl(One(8), k))
+Neg8(v) == Sub8(Zero(8), v)
+Around(b) == {Sub8(Pw(b - 1), N8(1)), Pw(b - 1), Neg8(Pw(b - 1))}
+             \cup (IF b < 64 THEN {Sub8(Pw(b), N8(1)), Pw(b), Sub8(Neg8(Pw(b - 1)), N8(1))} ELSE {})
+EpAll == UNION {Around(b) : b \in {8, 16, 32, 64}} \cup {Zero(8), N8(1), Neg8(N8(1)), Neg8(N8(64)), Neg8(N8(65))}
+EpVals(f, asz) ==
+    IF ~Slim THEN EpAll
+    ELSE {N8(1), Neg8(N8(1))}
+         \cup (CASE f = 0 -> Around(8 * asz) [] f \in {2, 10} -> Around(16) [] f \in {3, 11} -> Around(32)
+                  [] f \in {4, 12} -> Around(64) [] OTHER -> Around(8) \cup Around(64))
+EpCase(x) ==
+    LET enc  == x.f + x.app + (IF x.ind THEN 128 ELSE 0)
+        bc0  == MkBCie(32, 1, x.asz, 1, -8, 16)
+        bc1  == CASE x.slot = "P" -> [bc0 EXCEPT !.pers = [some |-> TRUE, enc |-> enc, addr |-> Zero(8)]]
+                  [] x.slot = "F" -> [bc0 EXCEPT !.fenc = enc]
+                  [] x.slot = "L" -> [bc0 EXCEPT !.lenc = enc]
+        clen == IF x.slot = "P" THEN 0 ELSE Len(EmitCie("eh", bc1, 0, TRUE).b)
+        pos  == CASE x.slot = "P" -> PersPos("eh", bc1, 0)
+                  [] x.slot = "F" -> FdeAddrPos("eh", bc1, clen)
+                  [] x.slot = "L" -> FdeLsdaPosPlain("eh", bc1, clen)
+        T    == IF x.app = 0 THEN x.d ELSE Add8(N8(pos), x.d)
+        bc   == IF x.slot = "P" THEN [bc1 EXCEPT !.pers.addr = T] ELSE bc1
+        fde  == [MkBFde(1, IF x.slot = "F" THEN T ELSE N8(4096), 64, << <<0, InsO("cfa_offset", 16)>> >>)
+                    EXCEPT !.lsda = IF x.slot = "L" THEN [some |-> TRUE, addr |-> T] ELSE NoLsda]
+    IN [cs |-> Case("eptr", <<bc>>, <<fde>>, x.le, "default") @@ [enc |-> enc, slot |-> x.slot],
+        lemma |-> PtrRoundTrip(enc, T, pos, x.asz)]
+
 TabInit == c = [stage |-> 0]
 TabNext ==
     \/ /\ c.stage = 0 /\ \E a \in {4, 8} : \E v \in DOMAIN Pool(4) : c' = [stage |-> 1, asz |-> a, adds |-> <<v>>, refs |-> <<>>]
@@ -183,6 +220,12 @@ TabNext ==
     \/ /\ c.stage = 1 /\ Len(c.refs) < MaxFdes
        /\ \E r \in DOMAIN c.adds : c' = [c EXCEPT !.refs = Append(@, r)]
     \/ /\ c.stage = 0 /\ \E kc \in 0..3 : \E pre \in BOOLEAN : c' = [stage |-> 4, kc |-> kc, pre |-> pre]   \* fan out
+    \/ /\ c.stage = 0 /\ \E slot \in {"P", "F", "L"} : \E f \in EpFormats : c' = [stage |-> 6, slot |-> slot, f |-> f]   \* fan out
+    \/ /\ c.stage = 6
+       /\ \E app \in {0, PePcrel} : \E asz \in {4, 8} : \E d \in EpVals(c.f, asz) : \E ind \in BOOLEAN :
+            /\ (ind => d = N8(1))
+            /\ c' = [stage |-> 7, slot |-> c.slot, f |-> c.f, app |-> app, asz |-> asz, d |-> d, ind |-> ind,
+                     le |-> (d[1] + c.f + asz) % 4 # 0]
     \/ /\ c.stage = 4
        /\ \E kf \in 0..3 : \E shape \in {"48", "84", "4", "8"} : \E f64 \in BOOLEAN :
             /\ (shape \in {"4", "8"} => c.pre)                  \* one address size is only interesting behind a prefix
@@ -194,6 +237,7 @@ TabInv ==
               adds == [j \in DOMAIN c.adds |-> pool[c.adds[j]]]
               fdes == [k \in DOMAIN c.refs |-> FdeFor(k, c.refs[k], adds[c.refs[k]])]
           IN Emit(Case("tab", adds, fdes, (Len(c.adds) + Len(c.refs) + c.asz) % 3 # 0, "default"))
+    /\ c.stage = 7 => LET e == EpCase(c) IN e.lemma /\ Emit(e.cs)
     /\ c.stage = 5 =>
           LET fmt  == IF c.f64 THEN 64 ELSE 32
               a4   == MixCie(32, IF c.shape = "4" THEN 1 ELSE 4, 4, c.kc)
